@@ -279,6 +279,30 @@ structure CompactDef where
   dropPrefixes : List Bytes
   outIds : List Nat := []  -- their file ids (identification only)
 
+/-! ## user-key ranges (`getKeyRange`, `keyRange.overlapsWith`, `keyRange.extend`) -/
+
+/-- user-key range of a table -/
+def Tbl.keyRange (t : Tbl) : Option (Bytes × Bytes) :=
+  match t.smallest, t.biggest with
+  | some a, some b => some (a.key, b.key)
+  | _, _ => none
+
+/-- `keyRange.overlapsWith` on `getKeyRange` ranges (`key@MaxUint64 … key@0`): inclusive overlap of
+    user-key intervals; the empty range overlaps everything. -/
+def rangeOverlaps (r : Option (Bytes × Bytes)) (d : Bytes × Bytes) : Bool :=
+  match r with
+  | none => true
+  | some (lo, hi) => cmpBytes lo d.2 != .gt && cmpBytes hi d.1 != .lt
+
+def rangeExtend (r : Option (Bytes × Bytes)) (d : Bytes × Bytes) : Option (Bytes × Bytes) :=
+  match r with
+  | none => some d
+  | some (lo, hi) =>
+    some (if cmpBytes d.1 lo == .lt then d.1 else lo, if cmpBytes d.2 hi == .gt then d.2 else hi)
+
+def rangeOfTables (ts : List Tbl) : Option (Bytes × Bytes) :=
+  ts.foldl (fun r t => match t.keyRange with | some d => rangeExtend r d | none => r) none
+
 /-- the entries a compaction writes: merge (L0 tops newest first, then the bottom run), filter. -/
 def compactOutput (s : Lsm) (cd : CompactDef) (discardTs numKeep now : Nat) : List Ent × Bool :=
   let thisT := s.levels.getD cd.thisLevel []
@@ -294,7 +318,15 @@ def compactOutput (s : Lsm) (cd : CompactDef) (discardTs numKeep now : Nat) : Li
   let merged := mergeAll (topSrcs ++ [(validBots.map (·.ents)).flatten])
   -- L0→L0 counts as overlapping (fix of finding F1: the L0 tables left out of the compaction are
   -- not inspected by `checkOverlap`)
-  let hasOverlap := (cd.thisLevel == 0 && cd.nextLevel == 0) || checkOverlap s (tops ++ bots) (cd.nextLevel + 1)
+  -- and so does an L0 compaction that leaves behind an L0 table whose key range overlaps the range
+  -- of the tables taken (fix of finding F28, `l0LeftBehindOverlaps`: L0 is not always in age order,
+  -- the table left behind may hold older versions of the keys being compacted)
+  let leftBehind := cd.thisLevel == 0 && (removeIdx thisT cd.top).any (fun t =>
+    match t.keyRange with
+    | some d => rangeOverlaps (rangeOfTables tops) d
+    | none => false)
+  let hasOverlap := (cd.thisLevel == 0 && cd.nextLevel == 0) ||
+    checkOverlap s (tops ++ bots) (cd.nextLevel + 1) || leftBehind
   (subcompact { discardTs, numKeep, hasOverlap, now, dropPrefixes := cd.dropPrefixes } merged, hasOverlap)
 
 /-- `runCompactDef`: `nextLevel.replaceTables(bot, new)` (sorted by `Smallest`, on every level,
